@@ -196,3 +196,9 @@ pub(crate) fn block(name: &str) -> Result<CodePointInversionListBuilder, Error> 
     builder.add_range32(&(block.start..=block.end));
     Ok(builder)
 }
+
+// Verification hook (add-only, `cargo kani` only): plain forwarder.
+#[cfg(kani)]
+pub(crate) fn verif_get_category_group(property: &str) -> Result<GeneralCategoryGroup, Error> {
+    get_category_group(property)
+}
